@@ -11,7 +11,7 @@ from sa.pm import FuncInfo, call_name, norm, self_attr, walk_local_ordered
 from sa.report import Ob, rule
 
 from .c02 import depth_guard, region
-from .common import attr_stores, ob, receiver_classes
+from .common import local_defs, attr_stores, ob, receiver_classes
 
 LISTENER = 'zeroconf._listener.AsyncListener'
 PROTOCOL_METHODS = ('datagram_received', 'error_received', 'connection_made', 'connection_lost')
@@ -481,6 +481,66 @@ def _discharged_locally(ctx: Any, f: FuncInfo, node: ast.AST, cont: ast.AST, key
     return False, 'no dominating presence test, and the key does not iterate the container'
 
 
+_DGRAM_SEQ_ATTRS = ('_questions', 'questions')  # per-packet lists that a valid datagram may leave empty
+
+
+def datagram_sequence_sinks(ctx: Any, scope: List[FuncInfo]) -> List[Tuple[FuncInfo, ast.AST, ast.AST, Optional[ast.AST], str]]:
+    """Partial accesses ([k], pop) to a list that comes out of a datagram (a packet's question list, its answers) after it
+    has flowed through locals, parameters (any call site) and instance attributes.  Such a list may be empty for a valid
+    datagram (a known-answer continuation packet carries no question), so the access needs a presence test."""
+    prog = ctx.prog
+    t_params: Set[Tuple[str, str]] = set()
+    t_attrs: Set[Tuple[str, str]] = set()
+
+    def tainted(f: FuncInfo, e: ast.AST, depth: int = 3) -> bool:
+        me = f.params[0] if f.params and f.cls is not None else None
+        if isinstance(e, ast.Attribute) and e.attr in _DGRAM_SEQ_ATTRS and not (me and self_attr(e, me) and (f.cls.full, e.attr) not in t_attrs and not f.cls.full.endswith('DNSIncoming')):
+            return True
+        if isinstance(e, ast.Attribute) and me and self_attr(e, me) and (f.cls.full, e.attr) in t_attrs:
+            return True
+        if isinstance(e, ast.Call) and call_name(e) == 'answers' and isinstance(e.func, ast.Attribute) and not e.args:
+            td = ctx.ty.type_of(f.module.name, e.func.value)
+            return bool(td and td[0] == 'inst' and str(td[1]).endswith('DNSIncoming'))
+        if isinstance(e, ast.Name):
+            if (f.full, e.id) in t_params:
+                return True
+            if depth > 0 and e.id not in f.params:
+                return any(v is not None and tainted(f, v, depth - 1) for v in local_defs(f).get(e.id, []))
+        return False
+
+    changed = True
+    rounds = 0
+    while changed and rounds < 6:
+        changed = False
+        rounds += 1
+        for f in scope:
+            me = f.params[0] if f.params and f.cls is not None else None
+            for t, st in attr_stores(f.node):
+                if me and self_attr(t, me) and isinstance(st, ast.Assign) and tainted(f, st.value) and (f.cls.full, t.attr) not in t_attrs:
+                    t_attrs.add((f.cls.full, t.attr))
+                    changed = True
+            for cs in ctx.cg.sites_in(f):
+                for tg in cs.targets:
+                    ps = tg.params[1:] if tg.cls is not None else tg.params
+                    for i, a in enumerate(cs.node.args):
+                        if i < len(ps) and tainted(f, a) and (tg.full, ps[i]) not in t_params:
+                            t_params.add((tg.full, ps[i]))
+                            changed = True
+                    for k in cs.node.keywords:
+                        if k.arg in ps and tainted(f, k.value) and (tg.full, k.arg) not in t_params:
+                            t_params.add((tg.full, k.arg))
+                            changed = True
+    out = []
+    for f in scope:
+        for n in walk_local_ordered(f.node):
+            if isinstance(n, ast.Subscript) and isinstance(n.ctx, ast.Load) and not isinstance(n.slice, ast.Slice) and tainted(f, n.value):
+                out.append((f, n, n.value, n.slice, 'load'))
+            elif isinstance(n, ast.Call) and isinstance(n.func, ast.Attribute) and n.func.attr in ('pop', 'popleft', 'remove', 'index') and tainted(f, n.func.value):
+                out.append((f, n, n.func.value, n.args[0] if n.args else None, n.func.attr))
+    ctx.counters['datagram_sequence_flows'] = {'params': sorted(f'{a}:{b}' for a, b in t_params), 'attrs': sorted(f'{a}.{b}' for a, b in t_attrs)}
+    return out
+
+
 @rule('C15.CONTAINERS', 'N', expect_min=10)
 def containers(ctx: Any) -> List[Ob]:
     """Stateful containers touched on the event-loop path are accessed totally: every partial
@@ -502,6 +562,17 @@ def containers(ctx: Any) -> List[Ob]:
                 continue
             ok, why = _discharged_locally(ctx, f, node, cont, key, op)
             obs.append(ob(R, f, node, f'partial operation `{op}` on self.{attr} cannot fail (no KeyError/IndexError into the event loop)', ok, why))
+    # lists that come out of a datagram (they may be empty for a valid one), wherever they have flowed to
+    seen_nodes = set()
+    for f in sorted(scope, key=lambda x: x.full):
+        for node, *_ in _container_sites(ctx, f):
+            seen_nodes.add(id(node))
+    full_scope = [f for f in ctx.cg.closure(roots) if f.full not in decoder]
+    for f, node, cont, key, op in datagram_sequence_sinks(ctx, full_scope):
+        if id(node) in seen_nodes:
+            continue
+        ok, why = _discharged_locally(ctx, f, node, cont, key, op)
+        obs.append(ob(R, f, node, f'partial operation `{op}` on a list taken from a datagram (`{norm(cont)}` may be empty) cannot fail', ok, why))
     # side condition of the _additionals invariant: every add to an answer bucket is preceded by storing the same keys
     qr = ctx.prog.cls('zeroconf._handlers.query_handler._QueryResponse')
     for m in qr.methods.values():
@@ -518,6 +589,19 @@ def containers(ctx: Any) -> List[Ob]:
 
 
 RULES.append(containers)
+
+
+@rule('C15.MEMORY', 'D', expect_min=4)
+def memory(ctx: Any) -> List[Ob]:
+    """The instance keeps working after junk: whatever arrives (valid or not), the duplicate memory of the socket is
+    rewritten as a whole -- bytes, time and message together, before any dispatch -- so a later well-formed query is never
+    compared with the bytes of one datagram and the arrival time of another (and dropped as a `duplicate`)."""
+    from .c16 import memory_obligations
+
+    return memory_obligations(ctx, 'C15.MEMORY')
+
+
+RULES.append(memory)
 
 
 @rule('C15.ASSEMBLED', 'N', expect_min=2)
